@@ -329,3 +329,9 @@ def run(ck):
     ck.attempt(rule_units)
     ck.attempt(rule_zero_pilot)
     ck.attempt(rule_reset)
+    # the stored gain, the reported power and the returned rate carry the same energy (identity, shared with C02); the clamp operands
+    # of the ideal law are the documented quantities (shared with C03)
+    from .c02 import rule_gain_identity
+    ck.attempt(rule_gain_identity, rid="C14.R8")
+    from .c03 import rule_exact_bounds
+    ck.attempt(rule_exact_bounds, rid="C14.R9")
